@@ -2,6 +2,9 @@
 # usage: lib/tseed.sh <seed dir with patch.diff> <PROP>...  - run quick checks against a seeded patch applied to /repo, then revert
 d=$1; shift
 git -C /repo apply $d/patch.diff || exit 2
+# evidence written while the patch is applied describes the mutated tree: put the committed files back afterwards
+save=$(mktemp -d); cp /verif/evidence/*.json $save/
 for p in "$@"; do /verif/bin/check $p --tier quick 2>&1 | grep -E "VIOLATION|rules=|$p quick|TOOL"; done
 git -C /repo checkout -- .
 rm -f /verif/replays/*
+cp $save/*.json /verif/evidence/; rm -rf $save
